@@ -914,6 +914,27 @@ pub fn gen_model(r: &mut Rng, p: &GenParams) -> Model {
         }));
     }
 
+    // plain helper functions that emit events (no command attribute): event discovery looks at
+    // every function, wherever it lives
+    if r.chance(1, 3) {
+        for _ in 0..r.range(1, 2) {
+            let payload = match r.below(3) {
+                0 if !type_names.is_empty() => Payload::Lit(r.pick(&type_names).clone()),
+                1 => Payload::Str,
+                _ => Payload::Int,
+            };
+            items.push(Item::Cmd(Command {
+                name: nm.fresh(r, "cmd"),
+                params: vec![],
+                chans: vec![],
+                ret: None,
+                is_async: false,
+                short_attr: false,
+                emits: vec![Emit { event: nm.fresh(r, "event"), payload, emit_to: false }],
+                is_command: false,
+            }));
+        }
+    }
     // decoys: things the tool must ignore
     for _ in 0..p.n_decoys {
         items.push(gen_decoy(r, &mut nm));
